@@ -271,6 +271,10 @@ def install_points(which="stop"):
     mods = sk.load_node()
     N = mods["node"].Node
     sched.clear()
+    if which == "cea-fin":
+        return sched.install({N.remove_peer_connection: None, N._flag_connection_as_ready: None, N._assign_peer_connection: None,
+                              N.close_connection_socket: None, N.receive_cea: r"_assign_peer_connection|_flag_connection_as_ready",
+                              N._handle_connections: r"\.recv\(|add_in_bytes|close_connection_socket\("})
     if which == "dpr":
         P = mods["peer"].PeerConnection
         return sched.install({P.reset_last_dwr: None, N.send_dwr: r"send_message|reset_last_dwr", N.receive_dpr: None,
@@ -388,6 +392,44 @@ def dpr_vs_watchdog(decisions):
         w.close()
 
 
+def cea_then_fin(decisions):
+    """A dialled persistent peer answers the CER with a 2001 CEA and goes away in the same instant (the read thread
+    completes the exchange while the connection thread removes the connection).  One schedule: the loss is noticed
+    and the peer is dialled again once its reconnect wait has elapsed."""
+    from dv import sched
+    w = W.NodeWorld({"peers": [{"name": "peer1.example", "ip": ["10.1.1.1"], "persistent": True, "reconnect_wait": 2}],
+                     "apps": [{"app_id": 4, "auth": True, "peers": [0], "handler": "answer"}],
+                     "node_timers": {"idle": 5000, "dwa": 50, "cer": 50, "cea": 50, "wakeup": 1}, "default_dial": "ok"})
+    try:
+        w.start()
+        a = w.conns[0]
+        a.host = "peer1.example"
+        ex = sched.Explorer(decisions)
+        sched.attach(w.k, ex)
+        cers = [f for f in a.refresh() if f.code == W.CMD_CE and f.is_request]
+        w.feed_msg(a, {"k": "CEA", "host": "peer1.example", "result": 2001, "auth": [4], "hbh": cers[-1].h["hbh"], "e2e": cers[-1].h["e2e"]}, run=False)
+        a.peer_closed = True
+        a.remote.close()
+        t0 = w.k.now
+        dials0 = len(w.net.connect_calls)
+        ex.armed = True
+        w.k.run()
+        ex.armed = False
+        w.advance(2 + 1 + 2)
+        problems = []
+        redials = [x for x in w.net.connect_calls[dials0:]]
+        if not redials:
+            problems.append(("not-redialled", f"the connection was lost at +0 (no DPR), reconnect_wait 2 s, wakeup 1 s: no dial within 5 s; "
+                             f"Peer.connection is {w.node.peers['peer1.example'].connection!r}"))
+        elif redials[0][0] - t0 < 1:
+            problems.append(("redialled-early", f"dialled again at +{redials[0][0] - t0:g}s, reconnect_wait 2 s"))
+        for sig, d in W.monitor_threads(w):
+            problems.append((f"thread-died/{sig}", d))
+        return ex.trace, problems
+    finally:
+        w.close()
+
+
 def start_race(decisions, npeers=2, dial="ok"):
     """Node.start() starts the connection thread and then dials the persistent peers from the caller's thread.
     One schedule; every persistent peer must have been dialled and sent its CER, and no thread may have died."""
@@ -458,6 +500,22 @@ def schedule_part(rec, shard, nshards, thorough):
             rec.case(fp("start", npeers, dial, tuple(sorted(dec.items()))) if dec else None,
                      ["start-race-schedule", f"start-race:dial-{dial}", f"deviations:{len(dec)}"], sample=lambda: dict(case, choice_points=len(trace)))
         rec.extra["start_race_schedules"] = rec.extra.get("start_race_schedules", 0) + ns
+    install_points("cea-fin")
+    holder_c = {}
+
+    def run_cf(dec):
+        tr, problems = cea_then_fin(dec)
+        holder_c["last"] = problems
+        return tr
+    nc_ = 0
+    for dec, trace in sched.enumerate_schedules(run_cf, 3 if thorough else 2, shard, nshards):
+        case = {"cea_then_fin": True, "schedule": {str(i): c for i, c in sorted(dec.items())}}
+        for kind, detail in holder_c["last"]:
+            rec.violation(f"C12/cea-then-fin/{kind}", case, detail)
+        nc_ += 1
+        rec.case(fp("ceafin", tuple(sorted(dec.items()))) if dec else None,
+                 ["cea-then-fin-schedule", f"deviations:{len(dec)}"], sample=lambda: dict(case, choice_points=len(trace)))
+    rec.extra["cea_then_fin_schedules"] = rec.extra.get("cea_then_fin_schedules", 0) + nc_
     info = install_points("dpr")
     if shard == 0:
         rec.extra["preemption_functions_dpr"] = info
@@ -668,13 +726,23 @@ def run(tier, scale=1.0):
     rec = Recorder(PID)
     for d in hyp.pool_run(shard_main, (tier, scale)):
         rec.merge(d)
-    required = {"start-race:dial-inprogress": 1, "dpr-vs-watchdog-schedule": 1, "dpr-vs-watchdog:dwr-sent:1": 1, "start-race-schedule": 1, "other-peer-busy": 1, "second-connection-by-the-peer": 1, "identity:respelled": 1, "stop-race-schedule": 1, "persistent:True": 1, "persistent:False": 1, "always:True": 1, "addr:False": 1, "losses:2": 1,
+    required = {"cea-then-fin-schedule": 1, "start-race:dial-inprogress": 1, "dpr-vs-watchdog-schedule": 1, "dpr-vs-watchdog:dwr-sent:1": 1, "start-race-schedule": 1, "other-peer-busy": 1, "second-connection-by-the-peer": 1, "identity:respelled": 1, "stop-race-schedule": 1, "persistent:True": 1, "persistent:False": 1, "always:True": 1, "addr:False": 1, "losses:2": 1,
                 "dpr-on-ready": 1, "dwa-event": 1, "dwr-outstanding-at-dpr": 1, "reason-dpr": 1, "dials:3": 1, "loss:sync-refused": 1, "loss:cea-timeout": 1}
     return finish(rec, tier=tier, level="exploration", rule=RULE, assumptions=ASSUME, t0=t0,
                   required_classes=required)
 
 
 def replay(doc):
+    if doc["case"].get("cea_then_fin"):
+        install_points("cea-fin")
+        _, problems = cea_then_fin({int(i): c for i, c in doc["case"]["schedule"].items()})
+        sigs = [f"C12/cea-then-fin/{k}" for k, _ in problems]
+        if doc["signature"] in sigs:
+            print(f"  replayed: {problems[0][1][:300]}")
+            print(f"VIOLATION property={PID} replay=(replay)")
+            return 1
+        print(f"[{PID}] replay: signature {doc['signature']} does not reproduce (got {sigs})")
+        return 0
     if doc["case"].get("dpr_vs_watchdog"):
         install_points("dpr")
         problems = dpr_vs_watchdog({int(i): c for i, c in doc["case"]["schedule"].items()})[1]
